@@ -96,3 +96,32 @@ MANIFEST_TEXT["C04"] = dict(engine="E-input", design_ref="DESIGN.md §4 C04",
     level_text="Every vector up to the stated (width, length) scopes and every short vector over sparse alphabets up to width 16, through all five item types, with every (index, rank, value) argument incl. absent and out-of-alphabet values; "
                "the core mapping is compared with the stable sort by reversed bit representation.",
     level_note="Trusts the naive reference; long vectors and dense wide alphabets are not explored.")
+
+PROPS["C06"] = dict(
+    driver="c06", builds=["rel", "dbg"], level="exploration",
+    rule="E-input: a catalogue of values of every Serialize type (u64, usize, pairs, vectors of them, byte vectors of every length 0..17, ASCII and multi-byte strings, Option and Option<Option<>> of several types, "
+         "RawVector, IntVector at many widths, BitVector with each of the 8 support subsets, SparseVector (sets and multisets), RLVector with 1/8/9/many blocks, WMCore, WaveletMatrix, RankSupport, SelectSupport) plus every "
+         "BitVector / SparseVector / RLVector of <= N bits. For each x: bytes written == 8*size_in_elements == size_in_bytes; load consumes exactly those bytes, equals x, re-serializes identically and answers the query sets of C01-C04; "
+         "also through 1/3/7/8/9-byte short-read readers and 1/3/7-byte short-write sinks; size_by_params for Raw/IntVector over boundary (capacity, width) sets. Every ordered pair (thorough: every triple over 24 values) "
+         "written back to back loads in sequence with the reader ending exactly at the end. Non-trivial = more than one element; distinct by hashed descriptor / descriptor tuple.",
+    bounds={"quick": "144-value catalogue, N=8, 20 736 pairs", "thorough": "extended catalogue (all widths, all byte lengths, multi-superblock vectors), N=10, all pairs, 13 824 triples"},
+    assumptions=[HOOK_ASSUMPTION, MODEL_ASSUMPTION],
+)
+MANIFEST_TEXT["C06"] = dict(engine="E-input", design_ref="DESIGN.md §4 C06",
+    technique="bounded exhaustive enumeration over a catalogue of all Serialize types, all pairs/triples of concatenations and all small bitvectors, with short-read/short-write environment answers",
+    level_text="Round trip, exact sizes, exact consumption, query equivalence of the loaded copy, and every ordered pair (triple) of catalogue values in one stream; readers and sinks that answer with 1..9-byte chunks.",
+    level_note="Values outside the catalogue and the small scope are not explored.")
+
+PROPS["C17"] = dict(
+    driver="c17", builds=["rel", "native", "dbg"], level="exploration",
+    rule="E-input: write_int/read_int at every (offset 0..=191, width 1..=64) on a 4-word array x value alphabet x background alphabet (whole array compared bit by bit with a reference; single-word and straddling branch); "
+         "bits::select for EVERY rank < popcount over every word with <= 3 (thorough 4) set bits, every byte value at every byte position over four background fills, their complements, shifted runs and the seed pattern "
+         "(covers every entry of the in-byte table and every prefix-sum case); low_set/high_set (+unchecked) for all n in 0..=64; bit_len, reverse_low (all widths), rounding helpers, split/bit_offset, div_round_up over boundary sets "
+         "inside their documented domains, compared with u128 arithmetic. Run in builds without BMI2 (portable table), with BMI2 (PDEP) and with overflow checks. Non-trivial: non-zero background or straddling field; every (word, rank) pair.",
+    bounds={"quick": "5 values x 4 backgrounds; 94 449 select words", "thorough": "133 values x 6 backgrounds; 1 364 078 select words"},
+    assumptions=[HOOK_ASSUMPTION, "select on words outside the structured families is not explored (the function is branch-free; the families cover every table entry and byte position)"],
+)
+MANIFEST_TEXT["C17"] = dict(engine="E-input", design_ref="DESIGN.md §4 C17",
+    technique="exhaustive enumeration of (offset, width, value, background) and of (word, rank) over structured word families, in three build configurations (portable select, BMI2, overflow checks)",
+    level_text="All 12 288 fields x value/background alphabets with whole-array comparison; every rank of ~10^5 (10^6) structured words on both select implementations; all helper domains at their boundaries.",
+    level_note="Reference answers are computed bit by bit in the driver; words outside the families are not explored.")
